@@ -35,6 +35,12 @@ def specAccept (pubLen sigLen : Nat) (sigOK : Bool) (required expiresNs : Nat) (
         && decide (now ≤ expNs e) && decide (expNs e - now ≤ 2 * (expiresNs : Int))
         && sub == subject && alg == algSHA256 && decide (required ≤ leadingZeroBits digest)
 
+/-- not expired and inside the window at `now` (expiry as parsed by the real `Parse`) -/
+def timeOK (expiresNs : Nat) (pf : Option (Nat × Option Nat × Bytes × Bytes)) (now : Int) : Bool :=
+  match pf with
+  | some (_, some e, _, _) => decide (now ≤ expNs e) && decide (expNs e - now ≤ 2 * (expiresNs : Int))
+  | _ => false
+
 def parsePF (s : String) : Option (Option (Nat × Option Nat × Bytes × Bytes)) :=
   if s = "perr" then some none else
   match s.splitOn "," with
@@ -79,7 +85,8 @@ def step (_ : Unit) (toks : List String) (rhs : String) : Unit × Verdict :=
       let sLo := specAccept pubLen sigLen sigOK required expiresNs subj pf digest nowLo
       let sHi := specAccept pubLen sigLen sigOK required expiresNs subj pf digest nowHi
       let implOK := rhs == "ok"
-      if fromSolver ∧ ¬ implOK then ((), .spec s!"proof produced by the solver for the same parameters rejected: {rhs}")
+      -- "proofs produced by the solver for the same parameters are always accepted" (while they have not expired)
+      if fromSolver ∧ ¬ implOK ∧ timeOK expiresNs pf nowLo ∧ timeOK expiresNs pf nowHi then ((), .spec s!"proof produced by the solver for the same parameters rejected: {rhs}")
       else if sLo = sHi ∧ implOK ≠ sLo then ((), .spec s!"acceptance: statement says accept={sLo}, implementation {rhs}")
       else if mLo = mHi ∧ mLo.tok ≠ rhs then ((), .diff mLo.tok)
       else ((), .ok)
